@@ -486,8 +486,11 @@ def make(model, cfg=None, mode="solve", select=("C01", "C02"), order=None, objec
             stats = solver.get_statistics()
         except Obligation as o:
             E.acc.count("obligation:" + o.kind)
-            prop = "C16" if "C16" in select else ("C03" if mode not in ("solve", "solve_q") else "C01")
-            if o.model is not None:
+            prefer = ["C16"] + (["C03"] if mode not in ("solve", "solve_q") else []) + ["C01", "C04", "C02", "C17", "C08", "C15"]
+            prop = next((p_ for p_ in prefer if p_ in select), None)
+            if prop is None:
+                E.acc.count("budget-unlisted")  # no result to judge
+            elif o.model is not None:
                 report(prop, "obligation-" + o.kind, o.model, detail=o.detail)
             return
         finally:
@@ -659,6 +662,28 @@ def run_history(E, mods, pb, history, kw):
             pb.split(2, 0)
         elif h == "init_twice":
             pb.init()
+        elif h == "sibling_problem":
+            # an unrelated problem with the same constraint types but other parameter vectors was solved earlier
+            sib = Problem([(0, 1)] * len(pb.shr_domains_lst), list(pb.dom_indices_lst), [0] * len(pb.dom_indices_lst))
+            for pv, alg, params in pb.propagators:
+                name = None
+                for n_ in dir(P):
+                    if n_.startswith("ALG_") and getattr(P, n_) == alg:
+                        name = n_[4:].lower()
+                if name == "relation":
+                    sib.add_propagator((list(pv), alg, [0] * len(pv)))  # one allowed tuple instead of several
+                elif name == "element_iv":
+                    sib.add_propagator((list(pv), alg, [0]))
+                elif name == "gcc":
+                    sib.add_propagator((list(pv), alg, [0, 0, len(pv)]))
+                else:
+                    sib.add_propagator((list(pv), alg, [0 if not isinstance(x, int) else x for x in params]))
+            s0 = BS.BacktrackSolver(sib, **kw)
+            it = s0.solve()
+            try:
+                next(it)
+            except StopIteration:
+                pass
         else:
             raise ValueError(h)
 
@@ -673,6 +698,12 @@ def make_history(model, history, cfg=None, D=None):
         md = dict(md, base=0)
 
     def body(E):
+        # scenario A and scenario B each start from freshly executed module bodies (= a fresh interpreter as far as nucs'
+        # own module-level state is concerned); B then goes through the history before the solver under test is built
+        core.reload_nucs()
+        from . import h_prop
+
+        h_prop._P = None
         mods = _mods()
         H, P, BS, BCA, CP, CA, SH, Problem = mods
         ctx = Ctx(E, md, D)
@@ -694,6 +725,11 @@ def make_history(model, history, cfg=None, D=None):
             sA = BS.BacktrackSolver(pbA, **kw)
             solsA = [s.tolist() for s in sA.solve()]
             statsA = sA.get_statistics()
+            core.reload_nucs()
+            h_prop._P = None
+            mods = _mods()
+            H, P, BS, BCA, CP, CA, SH, Problem = mods
+            kw, _ = make_config(E, H, CA, cfg, ctx)
             pbB = ctx.build(Problem, P)
             snapshot = ([list(x) for x in pbB.shr_domains_lst], list(pbB.dom_indices_lst), list(pbB.dom_offsets_lst), [(list(a), b, list(c)) for a, b, c in pbB.propagators])
             run_history(E, mods, pbB, history, kw)
@@ -704,8 +740,8 @@ def make_history(model, history, cfg=None, D=None):
             E.acc.count("obligation:" + o.kind)
             return
         finally:
-            for lst, n in zip((P.COMPUTE_DOMAINS_FCTS, P.GET_TRIGGERS_FCTS, P.GET_COMPLEXITY_FCTS, H.DOM_HEURISTIC_FCTS, H.VAR_HEURISTIC_FCTS, CA.CONSISTENCY_ALG_FCTS), reg_lens):
-                del lst[n:]
+            core.reload_nucs()  # leave fresh modules behind (the registrations of the history die with the old modules)
+            h_prop._P = None
         E.acc.count(f"solutions:{len(solsA)}")
         if len(solsA) != len(solsB):
             viol("different-number-of-solutions-after-history", a=len(solsA), b=len(solsB))
